@@ -60,6 +60,10 @@ def tokenize(pieces):
             w = word[0]
             if w.kind == "num":
                 toks.append(("n", w.parts[0]))
+            elif w.kind == "trunc":
+                raise DocError("the number %r is written with '%%d': its fractional part is dropped" % (w.parts[0],))
+            elif w.kind in ("opaque", "of"):
+                raise DocError("a value is written with a format the analysis cannot read as an exact numeral (%r)" % (w,))
             else:
                 raise DocError("payload %r is written outside double quotes: whatever it contains is read as numbers, strings or comment" % (w,))
         elif all(isinstance(x, str) for x in word):
